@@ -151,7 +151,7 @@ def check_hierarchy_cases(rng: random.Random, thorough: bool) -> Iterator[Dict[s
     sets = ch_rulesets()
     for mode in MODES:
         for output in (None, "invalid", "all", "all_measures"):
-            picks = sets if thorough else [sets[i] for i in rng.sample(range(len(sets)), 3)]
+            picks = sets if thorough else [sets[i] for i in rng.sample(range(len(sets)), 2)]
             for k, rules in enumerate(picks):
                 rs = named(rules, "R") if (k % 2 == 0 or len(rules) > 1) else rules
                 for rows in (data if thorough else [data[k % len(data)], data[(k + 1) % len(data)]]):
